@@ -311,6 +311,7 @@ type layoutContext struct {
 	forcedBreak     bool
 	inColumn        bool
 	inMarginBox     bool // laying out the content of a page-margin box, which is never fragmented
+	inAtomicInline  int  // > 0 while laying out the content of an atomic inline-level box, which is never fragmented
 }
 
 // presentationalHints=false,
